@@ -49,7 +49,7 @@
 From Coq Require Import List NArith Bool Arith.
 From Atlas Require Import Base.Bytes Lint.LintModel Lint.LintSpec Lint.LintProofs Lint.LintFileProofs Lint.LintSoundProofs Lint.LintDropProofs Lint.LintRefute
   Lint.LintNolintModel Lint.LintNolintProofs Lint.LintNolintRefute
-  Lint.LintGenModel Lint.LintGenSpec Lint.LintGenProofs Lint.LintGenRefute Lint.LintEnvModel Lint.LintEnvProofs Lint.LintHistProofs Lint.LintComposeProofs.
+  Lint.LintGenModel Lint.LintGenSpec Lint.LintGenProofs Lint.LintGenRefute Lint.LintEnvModel Lint.LintEnvProofs Lint.LintHistProofs Lint.LintComposeProofs Lint.LintRefineProofs.
 Import ListNotations.
 
 (** 1. destructive.Analyze, exactly: DS102 at [p] naming [n] iff a statement at [p] carries DropTable n
@@ -723,6 +723,20 @@ Theorem C18_rebuild_group_in_file :
 Proof. exact rebuild_group_in_file. Qed.
 Print Assumptions C18_rebuild_group_in_file.
 
+(** * Round 5 -- the two analyzer models are one (Lint/LintRefineProofs.v) *)
+
+(** 51. destructive.Analyze of the SQLite-derived model (rounds 1-4: one schema, DS102/DS103, spans keyed by table name)
+    is the engine-free analyzer on the single schema "main": embedding the change list ([esc]: tables get schema main,
+    a virtual column gets GeneratedExpr VIRTUAL, index changes become "other") commutes with the analysis, for every
+    change list and option.  So the in-process tie of stage gen and the theorems 31-41 also speak about the
+    analyzer the CLI stages exercise. *)
+Theorem C18_generic_refines_sqlite_model :
+  forall (error : bool) (cl : list schange),
+  Analyze_g error (map esc cl) =
+  GDone (map ediag (Analyze cl)) (nonempty (Analyze cl)) (nonempty (Analyze cl) && error).
+Proof. exact Analyze_refines. Qed.
+Print Assumptions C18_generic_refines_sqlite_model.
+
 (* non-vacuity, round 5 *)
 Example ex_generic_multi :
   Analyze_g false w_multi =
@@ -796,4 +810,12 @@ Example ex_rebuild_group_in_file :
              mkSC 115 [RenameTableC New Cur]; mkSC 150 [ModifyTableC Cur [DropColumnC c_a]]] in
   modifyUsingTemp (mkSC 20 [AddTableC New]) (mkSC 100 [DropTableC Old]) (mkSC 115 [RenameTableC New Cur]) = Some (Old, Cur)
   /\ analyze_file cl = [mkDiag DS102 0 [n_victim]; mkDiag DS103 20 [c_name c_b]; mkDiag DS103 150 [c_name c_a]].
+Proof. vm_compute. split; reflexivity. Qed.
+
+Example ex_refines :
+  let T := mkTab n_t [c_id; c_a; mkCol [103]%N true 5] [] in
+  let cl := [mkSC 0 [ModifyTableC T [DropColumnC c_a; DropColumnC (mkCol [103]%N true 5); DropIndexC (mkIdx [105]%N [])]];
+             mkSC 40 [DropTableC T]] in
+  Analyze cl = [mkDiag DS103 0 [c_name c_a]; mkDiag DS102 40 [n_t]]
+  /\ Analyze_g true (map esc cl) = GDone [mkGD GDS103 0 [c_name c_a] 0; mkGD GDS102 40 [n_t] 0] true true.
 Proof. vm_compute. split; reflexivity. Qed.
